@@ -3,6 +3,7 @@
 From Coq Require Import Extraction ExtrOcamlBasic.
 From Coq Require Import List NArith ZArith.
 From DC Require Import BitMap.Model.
+From DC Require Window.Model.
 
 Extraction Language OCaml.
 
@@ -10,4 +11,5 @@ Extraction "model.ml"
   N.of_nat N.to_nat N.add N.mul N.div N.modulo N.eqb N.ltb N.leb N.sub N.succ N.compare
   Z.add Z.mul Z.sub Z.opp Z.of_N Z.to_N Z.div Z.modulo Z.eqb Z.ltb Z.leb Z.compare Z.abs_N
   Nat.add Nat.eqb Nat.ltb
-  BitMap.Model.bitmap_model_entry BitMap.Model.bitmap_orig_entry BitMap.Model.bitmap_spec_entry.
+  BitMap.Model.bitmap_model_entry BitMap.Model.bitmap_orig_entry BitMap.Model.bitmap_spec_entry
+  Window.Model.window_model_entry Window.Model.window_spec_entry.
